@@ -180,6 +180,8 @@ def main():
             samples.append({k: _short(v) for k, v in inputs.items()})
         if violated is not None:
             failures.append({"inputs": {k: _short(env["__old_" + k]) for k in inputs}, "violated": violated,
+                             "layouts": {k: ("F" if (isinstance(v, np.ndarray) and v.ndim == 2 and not v.flags["C_CONTIGUOUS"]) else "C")
+                                         for k, v in inputs.items() if isinstance(v, np.ndarray)},
                              "result": _short(result)})
             if len(failures) >= 3:
                 break
